@@ -14,7 +14,28 @@ rl.on('line', (line) => {
       get(t, k, r) { if (typeof k === 'string') reads.push(k); return Reflect.get(t, k, r); },
       has(t, k) { if (typeof k === 'string') reads.push(k); return Reflect.has(t, k); },
     });
-    const ctx = vm.createContext({ inputs: proxy, self: null, runtime: req.runtime });
+    // universal mode (kind realworld): every property of inputs / self / runtime exists and is again a universal
+    // object (callable, converts to the string "u", length 1), so expressions written for unknown input shapes evaluate;
+    // only property reads on the inputs object itself are recorded
+    function U(rec) {
+      const f = function () { return U(null); };
+      return new Proxy(f, {
+        get(t, k) {
+          if (typeof k === 'symbol') { return k === Symbol.toPrimitive ? (() => 'u') : undefined; }
+          if (rec) rec.push(k);
+          if (k === 'length') return 1;
+          if (k === 'toString' || k === 'valueOf' || k === 'toJSON') return () => 'u';
+          if (k === 'then') return undefined;
+          return U(null);
+        },
+        has(t, k) { if (rec && typeof k === 'string') rec.push(k); return true; },
+        apply() { return U(null); },
+        construct() { return U(null); },
+      });
+    }
+    const ctx = req.universal
+      ? vm.createContext({ inputs: U(reads), self: U(null), runtime: U(null) })
+      : vm.createContext({ inputs: proxy, self: null, runtime: req.runtime });
     let ok = true, err = null, val = null;
     try {
       val = vm.runInContext(req.code, ctx, { timeout: 5000 });
